@@ -44,17 +44,13 @@
 (define-fun inRangeK ((k Int) (x Int)) Bool (= (wrapKind k x) x))
 (define-fun roundKind ((k Int) (x Int)) Int (ite (= k 13) (round32 x) x))
 (declare-fun constInt (Int) Int)   ; exact integer value of a go/constant value (after ToInt)
-; go/constant constructors and Compare on Int / Bool / String constants (T4)
+; go/constant constructors and Compare on Int / Bool / String constants (T4): the facts are stated by the engine,
+; as ground instances, where MakeInt64 / MakeUint64 / MakeBool / MakeString / Compare are applied in the code
+; (quantified axioms here made every query of every property an order of magnitude slower)
 (declare-fun constMakeInt (Int) Int) (declare-fun constMakeBool (Bool) Int) (declare-fun constMakeString (String) Int)
 (declare-fun constMakeFloat (Int) Int) (declare-fun constMakeImag (Int) Int) (declare-fun rvCanAddr (Int) Bool)
-(assert (forall ((x Int)) (! (and (= (constKind (constMakeInt x)) 3) (= (constInt (constMakeInt x)) x)) :pattern ((constMakeInt x)))))
-(assert (forall ((b Bool)) (! (and (= (constKind (constMakeBool b)) 1) (= (constBoolVal (constMakeBool b)) b)) :pattern ((constMakeBool b)))))
-(assert (forall ((s String)) (! (and (= (constKind (constMakeString s)) 2) (= (constStringVal (constMakeString s)) s)) :pattern ((constMakeString s)))))
 ; token: EQL=39 LSS=40 GTR=41 NEQ=44 LEQ=45 GEQ=46
 (define-fun tokCmpInt ((t Int) (a Int) (b Int)) Bool (ite (= t 39) (= a b) (ite (= t 40) (< a b) (ite (= t 41) (> a b) (ite (= t 44) (not (= a b)) (ite (= t 45) (<= a b) (>= a b)))))))
-(assert (forall ((a Int) (t Int) (b Int)) (! (=> (and (= (constKind a) 3) (= (constKind b) 3)) (= (constCompare a t b) (tokCmpInt t (constInt a) (constInt b)))) :pattern ((constCompare a t b)))))
-(assert (forall ((a Int) (b Int)) (! (=> (and (= (constKind a) 1) (= (constKind b) 1)) (and (= (constCompare a 39 b) (= (constBoolVal a) (constBoolVal b))) (= (constCompare a 44 b) (not (= (constBoolVal a) (constBoolVal b)))))) :pattern ((constCompare a 39 b)) :pattern ((constCompare a 44 b)))))
-(assert (forall ((a Int) (b Int)) (! (=> (and (= (constKind a) 2) (= (constKind b) 2)) (and (= (constCompare a 39 b) (= (constStringVal a) (constStringVal b))) (= (constCompare a 44 b) (not (= (constStringVal a) (constStringVal b)))))) :pattern ((constCompare a 39 b)) :pattern ((constCompare a 44 b)))))
 (declare-fun croundKind (Int Int) Int)
 (declare-fun rvLen (Int) Int)
 (declare-fun rvSliceOp (Int Int Int) Int)        ; reflect.Value.Slice(i, j)
